@@ -87,6 +87,29 @@ TrRet == /\ IsEvent("ret") /\ Return
             [k \in 1..Len(Ev[l].mon) |-> <<Ev[l].mon[k].f, Ev[l].mon[k].it, Ev[l].mon[k].t>>]
          /\ UNCHANGED <<tid, idmap>>
 
+(* solve_legacy: one LegacyIter per TimeStep event, together with the step event that follows it when a step was taken *)
+TrLCall == /\ IsEvent("call") /\ LegacyCall
+           /\ Agrees(idmap, Ev[l].id, arg'.d) /\ arg'.t = Ev[l].t /\ arg'.it = Ev[l].it
+           /\ idmap' = Bind(idmap, Ev[l].id, arg'.d) /\ UNCHANGED tid
+
+TrLIter == /\ l <= Len(Ev) /\ Ev[l].e = "ts" /\ LegacyIter
+           /\ qn.t = Ev[l].t /\ Known(idmap, Ev[l].id, qn.d) /\ Ev[l].dt = traj'[Len(traj')].dt
+           /\ IF dt' > 0
+              THEN /\ l + 1 <= Len(Ev) /\ Ev[l + 1].e = "step"
+                   /\ Ev[l + 1].t = qn.t /\ Ev[l + 1].h = dt' /\ Ev[l + 1].t2 = qn'.t
+                   /\ Known(idmap, Ev[l + 1].id, qn.d) /\ Agrees(idmap, Ev[l + 1].id2, qn'.d)
+                   /\ idmap' = Bind(idmap, Ev[l + 1].id2, qn'.d) /\ l' = l + 2
+              ELSE /\ (l + 1 > Len(Ev) \/ Ev[l + 1].e # "step") /\ l' = l + 1 /\ UNCHANGED idmap
+           /\ UNCHANGED tid
+
+TrLRet == /\ IsEvent("ret") /\ LegacyReturn
+          /\ nit = Ev[l].nit /\ itstart + nit = Ev[l].totnit
+          /\ Len(results) = Len(Ev[l].res) /\ Ev[l].mon = <<>>
+          /\ \A k \in 1..Len(results) :
+                /\ results[k].t = Ev[l].res[k].t /\ results[k].it = Ev[l].res[k].it
+                /\ Known(idmap, Ev[l].res[k].id, results[k].d)
+          /\ UNCHANGED <<tid, idmap>>
+
 Silent == /\ \/ Mon \/ Skip \/ PreSave \/ CheckEnd
              \/ (SideStep /\ results' = results)
           /\ UNCHANGED <<tid, l, idmap>>
@@ -96,6 +119,6 @@ Accept == /\ l = Len(Ev) + 1 /\ pc = "idle"
           /\ CSVWrite("%1$s", <<Traces[tid].id>>, OutFile)
           /\ l' = l + 1 /\ UNCHANGED <<vars, tid, idmap>>
 
-TraceNext == TrCall \/ TrIter \/ TrSide \/ TrMain \/ TrRet \/ Silent \/ Accept
+TraceNext == TrCall \/ TrIter \/ TrSide \/ TrMain \/ TrRet \/ Silent \/ Accept \/ TrLCall \/ TrLIter \/ TrLRet
 TraceSpec == TraceInit /\ [][TraceNext]_tvars
 =============================================================================
